@@ -22,8 +22,12 @@ for sid in sorted(R):
                 txt = first.split('.json', 1)[-1].strip()
                 kind = 'G/AST pass' if ('hl7apy/' in txt[:12] or 'calls ' in txt[:80] and '()' in txt[:60]) else 'G/B'
                 how = '%s: %s' % (kind, txt[:95].replace('|', '/'))
+            nobl = sum(1 for x in v if 'obligation' in x)
+            if nobl and not m:
+                how += '; + %d contract obligation%s' % (nobl, '' if nobl == 1 else 's')
             rows.append('| %s | %s | %s exit 1 | %s |' % (sid, summ, p, how))
         else:
             rows.append('| %s | %s | %s exit %d | **missed** |' % (sid, summ, p, c['exit']))
 print('\n'.join(rows))
 print('\n%d of %d seeded changes are reported by the check of their own property.' % (caught, len(R)))
+print('%d of them are (also) reported by a contract obligation.' % sum(1 for sid in R for c in R[sid]['checks'].values() if any('obligation' in x for x in c['violations'])))
